@@ -161,6 +161,9 @@ def run_history(history, budget_s=10):
                 if kind == 'create':
                     _, names, eid = op
                     comps = [objs.setdefault(n, K[n.split('#')[0]]()) for n in names]
+                    if any(c is v for c in comps for v in m.att.values()):
+                        # precondition of the properties (U1): an instance is attached at most once
+                        break
                     r = w.create_entity(*comps, entity_id=eid)
                     if eid is None:
                         if any(k[0] == r for k in m.att):
@@ -185,6 +188,8 @@ def run_history(history, budget_s=10):
                 elif kind == 'add':
                     _, e, n = op
                     c = objs.setdefault(n, K[n.split('#')[0]]())
+                    if any(c is v and k[0] != e for k, v in m.att.items()):
+                        break       # U1: the instance is attached to another entity
                     w.add_component(e, c)
                     m.attach(e, c, w)
                 elif kind == 'remove':
@@ -224,9 +229,10 @@ def run_history(history, budget_s=10):
                             m.detach(e2, t, w)
                         m.dead.discard(e)
                     else:
-                        if known:
-                            m.dead.add(e)
-                        else:
+                        # the mark is pending either way; for an identifier that owns nothing now
+                        # the property promises nothing about the next process() (it may raise once)
+                        m.dead.add(e)
+                        if not known:
                             objs.setdefault('never_existed', set()).add(e)
                 elif kind == 'process':
                     never = objs.get('never_existed', set())
@@ -239,7 +245,10 @@ def run_history(history, budget_s=10):
                         if not never:
                             verdict = ('C05', 'process() raised KeyError although every deleted entity existed when it was deleted', 'process-keyerror')
                             break
-                        never.clear()
+                        # one mark of an identifier that owned nothing was consumed by the failure
+                        gone = {e for e in never if e not in w._dead_entities}
+                        never -= gone
+                        m.dead -= gone
                         # the failed frame applied an unknown subset of the marks: resync
                         for e in list(m.dead):
                             if not any(k[0] == e for k in m.att if True) or not w._entities.get(e):
